@@ -6,3 +6,8 @@ package kv
 func VerifWaitBackground(f Family) {
 	f.(*family).condition.Wait()
 }
+
+// VerifDeleteObsolete runs the family's obsolete-file deletion.
+func VerifDeleteObsolete(f Family) {
+	f.deleteObsoleteFiles()
+}
